@@ -6,12 +6,17 @@ package c28
 import (
 	"fmt"
 
+	"path/filepath"
+
 	"github.com/ontio/ontology-crypto/keypair"
+	"github.com/ontio/ontology/account"
 	vbft "github.com/ontio/ontology/consensus/vbft"
+	"github.com/ontio/ontology/core/signature"
 	"github.com/ontio/ontology/core/types"
 
 	"verif/harness/gen"
 	"verif/harness/hx"
+	"verif/harness/ledgerkit"
 )
 
 // Sites are the quorum-size expressions the property speaks about ("thresholds used to seal,
@@ -212,6 +217,53 @@ func Run(c *hx.Ctx) {
 			}
 		}
 	}
+	// 1d. the ledger's own header check on a solo chain (non-VBFT branch of verifyHeader): the first
+	// header after genesis lists the one bookkeeper; it must be refused with no signature and with
+	// the signature of another key, and accepted with the bookkeeper's signature (n = 1: the
+	// threshold n-(n-1)/3 = 1 must be taken from the header being verified, whatever its predecessor lists).
+	func() {
+		k, err := ledgerkit.New(filepath.Join(c.OutDir, "c28-ledger"))
+		if err != nil {
+			c.Note("c28 ledger probe: " + err.Error())
+			return
+		}
+		defer k.Close()
+		blk, err := k.MakeBlock(nil)
+		if err != nil {
+			c.Note("c28 ledger probe: " + err.Error())
+			return
+		}
+		offer := func(label string, mutate func(h *types.Header), wantAccept bool) {
+			raw := blk.Header.ToArray()
+			h, err := types.HeaderFromRawBytes(raw)
+			if err != nil {
+				c.Note("c28 ledger probe: " + err.Error())
+				return
+			}
+			mutate(h)
+			var aerr error
+			p, msg := hx.Recover(func() { aerr = k.Ledger.AddHeaders([]*types.Header{h}) })
+			c.Eval()
+			c.Count("run:ledger-header:" + label)
+			if p {
+				c.Fail("panic:AddHeaders", "header sync panicked", map[string]interface{}{"probe": label}, msg, nil)
+				return
+			}
+			if (aerr == nil) != wantAccept {
+				c.Fail("quorum:run:ledger-header-solo", "a header is accepted by the ledger exactly when n-(n-1)/3 of ITS bookkeepers signed it",
+					map[string]interface{}{"probe": label, "height": h.Height, "bookkeepers": len(h.Bookkeepers), "signatures": len(h.SigData)},
+					fmt.Sprintf("AddHeaders error: %v", aerr), map[bool]string{true: "accepted", false: "refused"}[wantAccept])
+			}
+		}
+		other := account.NewAccount("")
+		offer("no-signature", func(h *types.Header) { h.SigData = nil }, false)
+		offer("signature-of-another-key", func(h *types.Header) {
+			hash := h.Hash()
+			sig, _ := signature.Sign(other, hash[:])
+			h.SigData = [][]byte{sig}
+		}, false)
+		offer("bookkeeper-signature", func(h *types.Header) {}, true)
+	}()
 	// 2. translation validation where the formula is observable through an exported function:
 	// AddressFromBookkeepers(keys) must be the m-of-n address with m = addr_bookkeepers_m n.
 	var keys []keypair.PublicKey
